@@ -111,7 +111,9 @@ def handleLex (ws : List String) (_blk : Array String) : Option String :=
     match parseHex lang, parseHexListFast a, parseHexListFast b with
     | some l, some x, some y =>
       if [dig, permit, aac, bac].all (fun w => w = "0" ∨ w = "1") then
-        some (if forceSpace2 l (dig = "1") (permit = "1") x (aac = "1") y (bac = "1") then "1" else "0")
+        -- the harness types `pc` as CT_NUMBER when it is not an angle close and its text starts with a digit
+        let aNum := aac != "1" && (match x.head? with | some c => decide (48 ≤ c ∧ c ≤ 57) | none => false)
+        some (if forceSpace2 l (dig = "1") (permit = "1") x (aac = "1") y (bac = "1") aNum then "1" else "0")
       else some "bad-op"
     | _, _, _ => some "bad-op"
   | ["lex.munch", lang, hex] =>
